@@ -18,6 +18,12 @@ use std::task::{Context, Poll, Wake, Waker};
 
 pub type TaskId = usize;
 
+/// Watchdog support: a poll that never returns (busy loop inside a future) cannot be
+/// interrupted from the executor; a monitor thread of the process watches these.
+pub static HEARTBEAT: std::sync::atomic::AtomicU64 = std::sync::atomic::AtomicU64::new(0);
+pub static IN_POLL: AtomicBool = AtomicBool::new(false);
+pub static CURRENT_TASK: std::sync::Mutex<String> = std::sync::Mutex::new(String::new());
+
 struct Flag(AtomicBool);
 
 impl Wake for Flag {
@@ -147,10 +153,17 @@ impl Dx {
         self.tasks[id].polls += 1;
         self.trace = (self.trace ^ (id as u64 + 1)).wrapping_mul(0x100000001b3);
         let waker = Waker::from(self.tasks[id].flag.clone());
+        if let Ok(mut g) = CURRENT_TASK.try_lock() {
+            g.clear();
+            g.push_str(&self.tasks[id].name);
+        }
+        HEARTBEAT.fetch_add(1, Ordering::Relaxed);
+        IN_POLL.store(true, Ordering::SeqCst);
         let res = guard::guarded(|| {
             let mut cx = Context::from_waker(&waker);
             fut.as_mut().poll(&mut cx)
         });
+        IN_POLL.store(false, Ordering::SeqCst);
         match res {
             Ok(Poll::Pending) => self.tasks[id].fut = Some(fut),
             Ok(Poll::Ready(())) => {
@@ -226,6 +239,24 @@ impl Dx {
             let id = *rng.pick(&ready);
             self.poll_once(id);
         }
+    }
+
+    /// Random mode, one poll: false if nothing is ready.
+    pub fn step_random(&mut self, rng: &mut Rng) -> bool {
+        self.adopt();
+        let ready = self.ready_set();
+        if ready.is_empty() {
+            return false;
+        }
+        if self.spurious.0 > 0 && rng.chance(self.spurious.0, self.spurious.1) {
+            let live: Vec<TaskId> = (0..self.tasks.len()).filter(|&i| self.tasks[i].fut.is_some()).collect();
+            let id = *rng.pick(&live);
+            self.poll_once(id);
+            return true;
+        }
+        let id = *rng.pick(&ready);
+        self.poll_once(id);
+        true
     }
 
     pub fn live_tasks(&self) -> Vec<(TaskId, String)> {
